@@ -20,6 +20,7 @@ TRUSTED_BASE = [
 SML_PROOFS = ["SmlNumbers.v", "SmlProofs.v"]
 SML_DEEP = SML_PROOFS + ["LexProofs.v", "ParseProofs.v"]
 SML_LAYOUT = SML_DEEP + ["LayoutProofs.v", "FrameProofs.v", "OffsetProofs.v"]
+SML_CASE = ["PrintProofs.v", "LexPrinted.v", "CaseProofs.v"]
 AST_PROOFS = ["FloatProofs.v", "AstProofs.v", "FillProofs.v"]
 FILL_DEEP = ["FillCompose.v", "EllipsisProofs.v", "PrintProofs.v"]
 WIRE_PROOFS = ["HeaderProofs.v", "WireSpec.v", "WireLemmas.v", "WireValues.v", "WireEnc.v", "WireDec.v", "MsgProofs.v"]
@@ -77,7 +78,7 @@ PROPS = {
         assumptions=["partial: time (the real lexer is quadratic: lineColumn and per-token regexp compilation) and the Go stack are not modelled; the worker's watchdog and TotalAlloc bound are the observation"],
     ),
     "C08": dict(
-        prop_file="props/C08.v", proof_files=SML_LAYOUT, tie_files=["TablesTie.v"],
+        prop_file="props/C08.v", proof_files=SML_LAYOUT + SML_CASE, tie_files=["TablesTie.v"],
         suites=["C08"],
         decisive=[],
     ),
